@@ -157,7 +157,7 @@ def run(ctx: Ctx):
         ctx.violation("per-object-scores:ego-vs-map:" + clause, "scores of one pair stored in base_link / in map rejected by Trace_Scores: %s" % clause, info[t_])
 
     def want(rendering, kind, fields):
-        return rendering == "map"
+        return rendering.startswith("map")
 
     nsingle = 0
     for c, f, specs, impls in pipeline.run_pipeline(ctx, want):
@@ -206,6 +206,10 @@ def run(ctx: Ctx):
             elif isinstance(x, tuple) and x[0] + x[2] > sc["nobj"]:
                 ctx.violation("lookup-then-evaluate:too-many-ground-truths", "query %d: %d objects in the scene, result %s" % (sc["queries"][qi], sc["nobj"], x), sc)
     ctx.extra["lookup_then_evaluate_scenarios"] = len(scen)
+    # the 1/3/9 partition into areas around the ego (Areas.tla): the same points around a moving ego, stored in base_link and in map
+    from . import analyzer
+
+    analyzer.areas_run(ctx)
     ctx.rule = (
         "Manager.tla describes a frame in ego-relative coordinates only. Every lattice scene TLC enumerates (families as in C03) is executed by the "
         "real manager with objects stored in base_link and stored in map under two ego poses (quarter turn + large translation; arbitrary yaw 0.7 "
